@@ -102,12 +102,17 @@ theorem counted_measure_dec {c : Ctx} {n : Nat} {hi : Option Nat} {body : St →
 
 theorem sstep_repeatGr {c : Ctx} {prog : List Insn} {nS p lo next rep cnt ix : Nat} {hi : Option Nat}
     {slots astk : List Nat} {X : List SBranch}
-    (h : prog[p]? = some (.repeatGr lo hi next rep)) (hrepS : rep < nS) (hcnt : slots[rep]? = some cnt) :
+    (h : prog[p]? = some (.repeatGr lo hi next rep)) (hrepS : rep < nS) (hcnt : slots[rep]? = some cnt)
+    (hU : hi = none → cnt ≤ c.len) :
     sstep c prog nS p ix slots astk X = some (
       if hi = some cnt then .run next ix slots astk X
       else if cnt < lo then .run (p + 1) ix (slots.set rep (cnt + 1)) astk X
       else .run (p + 1) ix (slots.set rep (cnt + 1)) astk (⟨next, ix, slots.set rep (cnt + 1), astk⟩ :: X)) := by
-  simp only [sstep, h, hrepS, ↓reduceIte, hcnt, beq_iff_eq]
+  have hb : (hi == none && decide (c.len < cnt)) = false := by
+    cases hi with
+    | none => have := hU rfl; simp; omega
+    | some x => simp
+  simp only [sstep, h, hrepS, ↓reduceIte, hcnt, beq_iff_eq, hb, Bool.false_eq_true]
   by_cases h1 : hi = some cnt
   · simp [h1]
   · by_cases h2 : cnt < lo
@@ -118,12 +123,17 @@ theorem sstep_repeatGr {c : Ctx} {prog : List Insn} {nS p lo next rep cnt ix : N
 
 theorem sstep_repeatNg {c : Ctx} {prog : List Insn} {nS p lo next rep cnt ix : Nat} {hi : Option Nat}
     {slots astk : List Nat} {X : List SBranch}
-    (h : prog[p]? = some (.repeatNg lo hi next rep)) (hrepS : rep < nS) (hcnt : slots[rep]? = some cnt) :
+    (h : prog[p]? = some (.repeatNg lo hi next rep)) (hrepS : rep < nS) (hcnt : slots[rep]? = some cnt)
+    (hU : hi = none → cnt ≤ c.len) :
     sstep c prog nS p ix slots astk X = some (
       if hi = some cnt then .run next ix slots astk X
       else if cnt < lo then .run (p + 1) ix (slots.set rep (cnt + 1)) astk X
       else .run next ix (slots.set rep (cnt + 1)) astk (⟨p + 1, ix, slots.set rep (cnt + 1), astk⟩ :: X)) := by
-  simp only [sstep, h, hrepS, ↓reduceIte, hcnt, beq_iff_eq]
+  have hb : (hi == none && decide (c.len < cnt)) = false := by
+    cases hi with
+    | none => have := hU rfl; simp; omega
+    | some x => simp
+  simp only [sstep, h, hrepS, ↓reduceIte, hcnt, beq_iff_eq, hb, Bool.false_eq_true]
   by_cases h1 : hi = some cnt
   · simp [h1]
   · by_cases h2 : cnt < lo
@@ -148,7 +158,7 @@ theorem loop_counted {c : Ctx} {n nS : Nat} {prog : List Insn} {body : St → Li
     (hkg : KeepsGood c n body) (hne : hi ≠ none ∨ Advances body) :
     ∀ (k fuel count : Nat) (st : St) (aux astk : List Nat) (X : List SBranch) (succ : St → Ans → Ans) (failA : Ans),
       repMeasure c hi count st < k → k ≤ fuel →
-      (∀ h, hi = some h → count ≤ h) →
+      (∀ h, hi = some h → count ≤ h) → (hi = none → count ≤ st.ix) →
       st.Good c n → n + aux.length = nS → aux[rep - n]? = some count → Par succ →
       ((∀ acc, (repLoop body lo hi greedy fuel count st).foldr succ acc = acc) → Big2 c prog nS (.fail X) failA) →
       (∀ l1 r l2, repLoop body lo hi greedy fuel count st = l1 ++ r :: l2 → (∀ acc, l1.foldr succ acc = acc) →
@@ -162,7 +172,7 @@ theorem loop_counted {c : Ctx} {n nS : Nat} {prog : List Insn} {body : St → Li
   induction k with
   | zero => intro fuel count st aux astk X succ failA hk; exact absurd hk (Nat.not_lt_zero _)
   | succ k ih =>
-    intro fuel count st aux astk X succ failA hk hfuel hc hg hl hcnt hsucc hf hs
+    intro fuel count st aux astk X succ failA hk hfuel hc hci hg hl hcnt hsucc hf hs
     cases fuel with
     | zero => omega
     | succ fuel =>
@@ -176,8 +186,8 @@ theorem loop_counted {c : Ctx} {n nS : Nat} {prog : List Insn} {body : St → Li
       have hstep : sstep c prog nS (pc + 1) st.ix (unview st.slots ++ aux) astk X =
           some (.run (m + 1) st.ix (unview st.slots ++ aux) astk X) := by
         cases greedy with
-        | true => rw [sstep_repeatGr (by simpa using hhead) hrepS hslot, if_pos hh]
-        | false => rw [sstep_repeatNg (by simpa using hhead) hrepS hslot, if_pos hh]
+        | true => rw [sstep_repeatGr (by simpa using hhead) hrepS hslot (fun h => Nat.le_trans (hci h) hg.ix), if_pos hh]
+        | false => rw [sstep_repeatNg (by simpa using hhead) hrepS hslot (fun h => Nat.le_trans (hci h) hg.ix), if_pos hh]
       apply Big2.step _ _ _ _ _ _ _ hstep
       have := hs [] st [] rfl (fun _ => rfl) aux [] [] failA (AuxAgree.refl _ _ _ _) (fun _ => rfl) (by simp)
         (fun hp => by simpa using hf hp)
@@ -221,7 +231,11 @@ theorem loop_counted {c : Ctx} {n nS : Nat} {prog : List Insn} {body : St → Li
         have hl2 : n + aux2.length = nS := by rw [hag1.1]; exact hl1
         have hcnt2 : aux2[rep - n]? = some (count + 1) := by
           rw [hag1.get rep hrep (Or.inl (Nat.lt_succ_self _))]; exact hcnt1
-        apply ih fuel (count + 1) r aux2 (junk1 ++ astk) (S1 ++ X0) succ acc1 hm.1 (by omega) hm.2 hgr hl2 hcnt2
+        have hci2 : hi = none → count + 1 ≤ r.ix := fun h => by
+          have h1 := (hne.resolve_left (by simp [h])) st r hr
+          have h2 := hci h
+          omega
+        apply ih fuel (count + 1) r aux2 (junk1 ++ astk) (S1 ++ X0) succ acc1 hm.1 (by omega) hm.2 hci2 hgr hl2 hcnt2
           hsucc hacc1
         intro m1 q m2 hsp2 hpass2 aux3 junk2 S2 acc2 hag2 hb2 hS2 hacc2
         have hsplit : (body st).flatMap (repLoop body lo hi greedy fuel (count + 1)) =
@@ -248,8 +262,8 @@ theorem loop_counted {c : Ctx} {n nS : Nat} {prog : List Insn} {body : St → Li
         have hstep : sstep c prog nS (pc + 1) st.ix (unview st.slots ++ aux) astk X =
             some (.run (pc + 2) st.ix (unview st.slots ++ aux.set (rep - n) (count + 1)) astk X) := by
           cases greedy with
-          | true => rw [sstep_repeatGr (by simpa using hhead) hrepS hslot, if_neg hh, if_pos hlo, hset]
-          | false => rw [sstep_repeatNg (by simpa using hhead) hrepS hslot, if_neg hh, if_pos hlo, hset]
+          | true => rw [sstep_repeatGr (by simpa using hhead) hrepS hslot (fun h => Nat.le_trans (hci h) hg.ix), if_neg hh, if_pos hlo, hset]
+          | false => rw [sstep_repeatNg (by simpa using hhead) hrepS hslot (fun h => Nat.le_trans (hci h) hg.ix), if_neg hh, if_pos hlo, hset]
         apply Big2.step _ _ _ _ _ _ _ hstep
         apply hiter X failA hf
         intro l1 q l2 hsp hpass aux' junk S acc hag hb hS hacc
@@ -264,7 +278,7 @@ theorem loop_counted {c : Ctx} {n nS : Nat} {prog : List Insn} {body : St → Li
           have hstep : sstep c prog nS (pc + 1) st.ix (unview st.slots ++ aux) astk X =
               some (.run (pc + 2) st.ix (unview st.slots ++ aux.set (rep - n) (count + 1)) astk
                 (⟨m + 1, st.ix, unview st.slots ++ aux.set (rep - n) (count + 1), astk⟩ :: X)) := by
-            rw [sstep_repeatGr (by simpa using hhead) hrepS hslot, if_neg hh, if_neg hlo, hset]
+            rw [sstep_repeatGr (by simpa using hhead) hrepS hslot (fun h => Nat.le_trans (hci h) hg.ix), if_neg hh, if_neg hlo, hset]
           apply Big2.step _ _ _ _ _ _ _ hstep
           apply hiter _ (succ st failA)
           · -- failing into the pushed exit: reached only if the iterations pass the failure through
@@ -295,7 +309,7 @@ theorem loop_counted {c : Ctx} {n nS : Nat} {prog : List Insn} {body : St → Li
           have hstep : sstep c prog nS (pc + 1) st.ix (unview st.slots ++ aux) astk X =
               some (.run (m + 1) st.ix (unview st.slots ++ aux.set (rep - n) (count + 1)) astk
                 (⟨pc + 2, st.ix, unview st.slots ++ aux.set (rep - n) (count + 1), astk⟩ :: X)) := by
-            rw [sstep_repeatNg (by simpa using hhead) hrepS hslot, if_neg hh, if_neg hlo, hset]
+            rw [sstep_repeatNg (by simpa using hhead) hrepS hslot (fun h => Nat.le_trans (hci h) hg.ix), if_neg hh, if_neg hlo, hset]
           apply Big2.step _ _ _ _ _ _ _ hstep
           have := hs [] st _ rfl (fun _ => rfl) (aux.set (rep - n) (count + 1)) []
             [⟨pc + 2, st.ix, unview st.slots ++ aux.set (rep - n) (count + 1), astk⟩]
@@ -343,7 +357,7 @@ theorem sim2_counted {c : Ctx} {n nS : Nat} {prog : List Insn} {e : Expr} {pc m 
     (repMeasure c hi 0 st + 1) _ 0 st (aux.set (rep - n) 0) astk X succ failA
     (Nat.lt_succ_self _)
     (by cases hi <;> simp [repMeasure] <;> omega)
-    (fun _ _ => Nat.zero_le _) hg (by simpa using hl)
+    (fun _ _ => Nat.zero_le _) (fun _ => Nat.zero_le _) hg (by simpa using hl)
     (by rw [List.getElem?_set_self (by omega)]) hsucc.par hf
   intro l1 r l2 hsp hpass aux' junk S acc hag hb hS hacc
   exact hs l1 r l2 hsp hpass aux' junk S acc (hag0.trans' hag) hb hS hacc
